@@ -62,7 +62,10 @@ def table_cases(draw, tier):
     n = draw(st.integers(2 * msl, 16))
     fam = draw(st.sampled_from(["pair", "closure", "l2int"]))
     case = {"n": n, "msl": msl, "family": fam, "k": draw(st.sampled_from([1, 2, 0, 3, 5, 8, 0.5, 1.3, 2.7])),
-            "int_output": fam != "l2int" and draw(st.sampled_from([False, False, True]))}
+            "int_output": fam != "l2int" and draw(st.sampled_from([False, False, True])),
+            # the user's cost memoises its result arrays (the same array object is returned for the same batch of cuts) or
+            # hands out read-only arrays: the arrays belong to the cost, the detector must not write into them
+            "memo": draw(st.sampled_from([None, None, "cache", "readonly"]))}
     if fam == "pair":
         m = draw(st.integers(0, 2 * n))
         case["weights"] = [
@@ -122,11 +125,16 @@ def check_table(case):
     U.EVAL_COUNTS.pop(tag, None)
     with sut("PELT(TableCost).fit/predict"):
         table_arg = T.astype(np.int64).tolist() if case.get("int_output") else T.tolist()
-        det = PELT(U.TableCost(table_arg, 1, tag, None, bool(case.get("int_output"))), scale_arg, msl).fit(X)
+        det = PELT(U.TableCost(table_arg, 1, tag, None, bool(case.get("int_output")), case.get("memo")), scale_arg, msl).fit(X)
         cpts = det.predict(X)["ilocs"].tolist()
         evals_predict = U.EVAL_COUNTS.get(tag, 0)
         scores = det.transform_scores(X).to_numpy()
         penalty = float(det.penalty_)
+        if case.get("memo") == "cache":
+            cpts_again = det.predict(X)["ilocs"].tolist()
+            if cpts_again != cpts:
+                raise Violation("a second predict on the same data gives other changepoints (the cost memoises its result arrays: "
+                                "they were modified by the detector)", first=cpts, second=cpts_again)
 
     def costfn(s, e):
         return float(T[s, e])
@@ -142,6 +150,8 @@ def check_table(case):
         classes.append("exact_integer_penalty")
     if case.get("int_output"):
         classes.append("integer_typed_cost_output")
+    if case.get("memo"):
+        classes.append(f"cost_result_arrays={case['memo']}")
     if n == 2 * msl:
         classes.append("n=2msl")
     if msl >= 2:
